@@ -112,9 +112,11 @@ func c05Run(j c05Job) *jobReport {
 			return
 		}
 		files := captureDir(dir)
-		h := imageHash(files)
 		mu.Lock()
 		defer mu.Unlock()
+		// identical bytes mean something different later in the history (an empty report log is fine before
+		// the first report and a loss after it): deduplicate per operation in flight only
+		h := fmt.Sprintf("%s@%d", imageHash(files), curOp)
 		rep.Extra["fs_steps"]++
 		if seen[h] {
 			return
@@ -199,9 +201,9 @@ func observerOf(dir string, mu *sync.Mutex, rep *jobReport, seen map[string]bool
 			return
 		}
 		files := captureDir(dir)
-		h := imageHash(files)
 		mu.Lock()
 		defer mu.Unlock()
+		h := fmt.Sprintf("%s@%d", imageHash(files), *curOp)
 		rep.Extra["fs_steps"]++
 		if seen[h] {
 			return
